@@ -115,7 +115,7 @@ def rest_protocol(tps, poll_ticks, c0, c1, c2, c3, c4, k0, k1, s1, s2, d0, d1, p
     real_requests = rest_mod.requests
     real_time = rest_mod.time
     rest_mod.time = _Clock()       # wall-clock timing statistics of the bridge are not part of the property
-    server = StubServer([c0, c1, c2, c3, c4], [k0, k1, 0, 0, 0], [s1, s2], 5)
+    server = StubServer([c0, c1, c2, c3, c4], [k0, k1, 0, 0, 0], [s1, s2], 2.5)      # fractional sizes are admissible decisions
     rest_mod.requests = server
     seen = set()
     try:
